@@ -127,6 +127,54 @@ def main(argv):
                 k_bad.append((src, cfg, detail))
     else:
         ck.broken.append("lean: the driver (model) does not build")
+    # K1' + K2: the *proved* object.  emit(lower(sk)) of the Lean Ctrl model = the converter's tree; the Lean executable
+    # semantics of source skeleton and target IR = CPython's event traces of source and converted program
+    if b["driver_ok"]:
+        import leandrv
+        from astjson import expr_from_json
+        ctrl_cases = [(pl, blk) for (pl, blk) in cases if pl in ("module", "function") and not gen_skel.has_def(blk)]
+        if ck.tier == "quick":
+            ctrl_cases = ctrl_cases[:1500]
+        reqs = []
+        meta = []
+        for idx, (pl, blk) in enumerate(ctrl_cases):
+            cfg = CFG4[idx % 4]
+            scheds = [(ck.seed * 131 + idx * 7 + t * 1009) % 100003 for t in range(2)]
+            reqs.append({"op": "ctrl", "cfg": list(cfg), "placement": pl, "sk": gen_skel.sk_json(blk), "schedules": scheds})
+            meta.append((pl, blk, cfg))
+        outs = leandrv.run_batch(reqs)
+        for (pl, blk, cfg), r in zip(meta, outs):
+            src = gen_skel.source(blk, pl)
+            if "error" in r:
+                k_bad.append((src, cfg, "Ctrl model: " + str(r["error"])[:200])); continue
+            real = lower_common.real_convert(ol, src, cfg)
+            if real[0] != "ok":
+                k_bad.append((src, cfg, "converter refused a legal skeleton: " + str(real[1]))); continue
+            if lower_common.canon_dump(real[1]) != lower_common.canon_dump(expr_from_json(r["tree"])):
+                k_bad.append((src, cfg, "K1': emit(lowerSk) differs from the converter's tree"))
+            else:
+                ck.count("K1prime_agree")
+            try:
+                text = ol.convert_code_string(src, configs=gen_prog.mk_configs(ol, ("oneliner",) + cfg))
+                code1 = compile(text, "<conv>", "eval")
+            except Exception as e:
+                continue
+            code0 = compile(src, "<src>", "exec")
+            for run in r["runs"]:
+                if "fuel" in run["src"] or "fuel" in run["tgt"]:
+                    ck.count("K2_out_of_fuel"); continue
+                st0, ev0, res0 = gen_skel.run(code0, "exec", run["s"])
+                st1, ev1, res1 = gen_skel.run(code1, "eval", run["s"])
+                if st0 != "ok" or st1 != "ok":
+                    continue
+                if run["src"]["ev"] != [gen_skel.ev_str(e) for e in ev0]:
+                    k_bad.append((src, cfg, f"K2: Lean source semantics trace differs from CPython exec (schedule {run['s']})"))
+                elif run["tgt"]["ev"] != [gen_skel.ev_str(e) for e in ev1]:
+                    k_bad.append((src, cfg, f"K2: Lean target semantics trace differs from CPython eval of the converted program (schedule {run['s']})"))
+                elif pl == "function" and run["tgt"]["rv"] != gen_skel.res_json(res1):
+                    k_bad.append((src, cfg, f"K2: return cell differs (schedule {run['s']})"))
+                else:
+                    ck.count("K2_traces_agree")
     if k_bad and not failing:
         # failing-input search, step (ii): the inputs on which model and code disagree, on the real code,
         # under every option combination and more schedules
